@@ -141,3 +141,8 @@ CORPUS += [
     Mut('c18-benign-directory-permissions-only-reported', 'torchtree/core/parameter_utils.py', '', "    if not safely:\n        with open(file_name, 'w') as fp:",
         "    if safely and not os.access(os.path.dirname(file_name) or '.', os.W_OK | os.X_OK):\n        print('checkpoint directory is not writable')\n    if not safely:\n        with open(file_name, 'w') as fp:", mode='text', benign=True),
 ]
+CORPUS += [
+    Mut('c18-optimiser-moments-in-a-side-file', 'torchtree/optim/optimizer.py', '', "        full_state = [optimizer_state] + self.parameters\n        save_parameters(checkpoint, full_state, safely, overwrite)\n",
+        "        torch.save(self.optimizer.state_dict(), checkpoint + '.optim')\n        full_state = [optimizer_state] + self.parameters\n        save_parameters(checkpoint, full_state, safely, overwrite)\n",
+        mode='text', expect=[('C18.W', 'torchtree.optim.optimizer.Optimizer.save_full_state::run-state-goes-through-the-atomic-writer-only')]),
+]
